@@ -194,6 +194,7 @@ VALUES = {  # label -> (value expression evaluated by the module's own construct
     "double-dotted-half": (2 / 1.75, (Fraction(2), 2, (1, 1))), "triplet-eighth": (12.0, (Fraction(8), 0, (3, 2))),
     "quintuplet-16th": (20.0, (Fraction(16), 0, (5, 4))), "sixteenth": (16, (Fraction(16), 0, (1, 1))),
     "eighth": (8, (Fraction(8), 0, (1, 1))),
+    "dotted-breve": (0.5 / 1.5, (Fraction(1, 2), 1, (1, 1))), "double-dotted-longa": (0.25 / 1.75, (Fraction(1, 4), 2, (1, 1))),
 }
 
 
@@ -345,13 +346,13 @@ def rule_xml_note(ctx):
     ctx.check(ok, R, "note[rest]", f.where(), "_note2musicxml(None)", "a rest must be a <note> with a <rest/> child")
 
 
-def make_xml_bar(repo, entries, key="Eb", meter=(3, 4)):
+def make_xml_bar(repo, entries, key="Eb", meter=(3, 4), concrete_beats=False):
     barci, keyci, nci, noteci = repo.mod(BAR).cls("Bar"), repo.mod(KEYS).cls("Key"), repo.mod(NC).cls("NoteContainer"), repo.mod(NOTE).cls("Note")
     k = AObj(keyci, {"key": key, "mode": "minor" if key[0].islower() else "major", "name": "display", "signature": nd.oracle_key_notes(key)[1]}, name="key")
     lst = []
     for names, v in entries:
         cont = None if names is None else AObj(nci, {"notes": [AObj(noteci, {"name": nm, "octave": 4}, name=nm) for nm in names]}, name="cont")
-        lst.append([Token("beat"), VALUES[v][0], cont])
+        lst.append([float(len(lst)) / 4 if concrete_beats else Token("beat"), VALUES[v][0], cont])
     return AObj(barci, {"bar": lst, "key": k, "meter": meter}, name="bar")
 
 
@@ -476,6 +477,29 @@ def rule_xml_score(ctx):
                 if si is None or si.textof("instrument-name") != "Vio<lin" or midi is None or midi.textof("midi-program") != "41":
                     ok, why = False, "instrument name / program are not carried over"
     ctx.check(ok, R, "score", f.where(), "_composition2musicxml(<2 tracks>)", why)
+    # tracks that compare equal (a unison doubling, two empty staves) are still separate parts
+    def go2(it):
+        ts = [AObj(trci, {"bars": [make_xml_bar(repo, [(["D"], "quarter")], concrete_beats=True)], "name": "Voice %d" % i, "instrument": None}, name="t%d" % i) for i in range(3)]
+        ts.append(AObj(trci, {"bars": [make_xml_bar(repo, [])], "name": "Empty A", "instrument": None}, name="e0"))
+        ts.append(AObj(trci, {"bars": [make_xml_bar(repo, [], key="C", meter=(4, 4))], "name": "Empty B", "instrument": None}, name="e1"))
+        comp = AObj(compci, {"tracks": ts, "title": "t", "author": "a"}, name="comp")
+        return it.call_function(f, [comp], {})
+    try:
+        p = explore(xml_interp(repo), go2)
+    except CannotDecide as e:
+        raise AnalysisError("_composition2musicxml (equal tracks): %s" % e)
+    ok, why = len(p) == 1 and p[0].kind == "return", "outcome %s" % [(x.kind, short(repr(x.value), 80)) for x in p]
+    if ok:
+        score = p[0].value
+        parts, plist = score.find("part"), score.first("part-list")
+        ids_p = [x.attrs.get("id") for x in parts]
+        ids_s = [x.attrs.get("id") for x in (plist.find("score-part") if plist else [])]
+        names = [sp.textof("part-name") for sp in (plist.find("score-part") if plist else [])]
+        if len(ids_p) != 5 or ids_p != ids_s or len(set(ids_p)) != 5 or any(not i for i in ids_p):
+            ok, why = False, "five tracks (three in unison, two empty) give part ids %s / part-list ids %s: every track needs its own id, the same in both places" % (ids_p, ids_s)
+        elif names != ["Voice 0", "Voice 1", "Voice 2", "Empty A", "Empty B"]:
+            ok, why = False, "part names %s" % names
+    ctx.check(ok, R, "score.equal-tracks", f.where(), "_composition2musicxml(<tracks that compare equal>)", why)
     # public entry points build a composition around their argument
     for fname in ("from_Bar", "from_Track", "from_Composition"):
         fi = repo.mod(MX).func(fname)
